@@ -30,6 +30,8 @@ type C33Case struct {
 	Sched   Sched     `json:"sched"`
 }
 
+var errRunAbandoned = errors.New("the caller abandoned this run (cancellation cause)")
+
 func genC33(t *rapid.T) C33Case {
 	c := C33Case{Graph: genGraph(t, 7, true), Par: rapid.IntRange(1, 4).Draw(t, "par")}
 	nclients := rapid.IntRange(1, 3).Draw(t, "nclients")
@@ -79,7 +81,16 @@ func execC33(t *testing.T, c C33Case) *Verdict {
 					rr := w.doRun(context.Background(), op.Nodes)
 					checkC33Run(w, rr, false)
 				case "run-cancel":
-					ctx, cancel := context.WithCancel(context.Background())
+					// (every other cancelled Run is cancelled with a cause of its own, as
+					// context.WithCancelCause or a deadline with a cause would)
+					ctx, cancelCause := context.WithCancelCause(context.Background())
+					cancel := func() {
+						if op.CancelAt%2 == 1 {
+							cancelCause(errRunAbandoned)
+						} else {
+							cancelCause(nil)
+						}
+					}
 					finished, inFlight := false, false
 					if op.CancelAt == 0 {
 						inFlight = true
@@ -148,7 +159,7 @@ func checkC33Run(w *gworld, rr runResult, cancelled bool) {
 		w.fail(viol("C33/run-panicked", "Run(%v) panicked: %v", rr.roots, rr.panicked))
 		return
 	case rr.err != nil && cancelled:
-		if !errors.Is(rr.err, context.Canceled) {
+		if !errors.Is(rr.err, context.Canceled) && !errors.Is(rr.err, errRunAbandoned) {
 			w.fail(viol("C33/run-failed", "cancelled Run(%v) failed with %v, which is not the cancellation error", rr.roots, rr.err))
 		}
 		sim.S().Probe("run:cancelled")
@@ -164,7 +175,7 @@ func checkC33Run(w *gworld, rr runResult, cancelled bool) {
 	for i, r := range rr.roots {
 		res := rr.results[i]
 		if res.Fatal != nil {
-			if errors.Is(res.Fatal, context.Canceled) && !cancelled {
+			if (errors.Is(res.Fatal, context.Canceled) || errors.Is(res.Fatal, errRunAbandoned)) && !cancelled {
 				w.fail(viol("C33/cancellation-error-served-to-live-run", "Run(%v) (run %d), whose context is live: query %d failed with %v -- an error that a cancelled Run left in the memo", rr.roots, rr.tag, r, res.Fatal))
 				return
 			}
